@@ -85,6 +85,18 @@ def wiring(ctx):
                              {"t": t, "ev": "exit", "role": "loop_body", "wiring": v}, {"driver": "wiring"})
     vlib.log("[wire] %d templates, %d distinct tree shapes, %d with unbalanced / underflowing wiring" %
              (len(ntemplates), len(shapes), len(bad)))
+    # leaf names occurring in the trees: every one of them must be executed by some run (vacuity guard)
+    names = set()
+
+    def walk(body):
+        for st in body:
+            if st["k"] == "leaf":
+                names.add(st["v"])
+            walk(st["b"])
+            walk(st["e"])
+    for shape in shapes:
+        walk(json.loads(shape)[1])
+    return names
 
 RULE = ("cases = runs of the 21 shipped templates over parameter grids x seeds x instances under the step observer; "
         "evaluations = recorded component steps / block boundaries; non-trivial = the step changed the projected state; "
@@ -93,9 +105,13 @@ RULE = ("cases = runs of the 21 shipped templates over parameter grids x seeds x
 
 def run(ctx):
     q = ctx.quick
-    wiring(ctx)
-    runlib.run_templates(ctx, ["C16"], seeds=[ctx.seed, ctx.seed + 1, ctx.seed + 2] if q else list(range(ctx.seed, ctx.seed + 20)),
-                         iters=[0, 1, 5] if q else [0, 1, 5, 30])
+    tree_names = wiring(ctx)
+    tr, executed, nruns = runlib.run_templates(
+        ctx, ["C16"], seeds=[ctx.seed, ctx.seed + 1, ctx.seed + 2] if q else list(range(ctx.seed, ctx.seed + 20)),
+        iters=[0, 1, 5, 40] if q else [0, 1, 5, 40, 150])
+    never = sorted(tree_names - executed)
+    if never:
+        raise vlib.ToolError("vacuous: components of the shipped templates that no run executed: %s" % never)
     return ctx.finish(RULE)
 
 
